@@ -178,4 +178,44 @@ def St.step (s : St) : Op → St
 
 def St.run (s : St) (ops : List Op) : St := ops.foldl St.step s
 
+/-! ## accounting of what reaches the callback (the quantities of `C01.reported_hits_exact`; the driver prints them) -/
+
+/-- is thread `t`'s slot for `b` pending at line `l`? -/
+def pendOf (s : St) (t : Nat) (b : Blk) (l : Int) : Nat :=
+  if (s.core.abs.last t b).map Prod.fst = some l then 1 else 0
+
+/-- LINE events of `(b, l)` that reach the callback (tracing installed in their thread) and find the line registered -/
+def delivered : St → List Op → Blk → Int → Nat
+  | _, [], _, _ => 0
+  | s, op :: r, b, l =>
+    (match op with
+     | .ev e => if s.tracing e.t then ind s.core.abs.regs e b l else 0
+     | _ => 0) + delivered (s.step op) r b l
+
+/-- pending hits thrown away because `disable()` ran while the line was still executing -/
+def dropped : St → List Op → Blk → Int → Nat
+  | _, [], _, _ => 0
+  | s, op :: r, b, l =>
+    (match op with
+     | .disable t => pendOf s t b l
+     | .disableBC t => if s.count t = 1 then pendOf s t b l else 0
+     | _ => 0) + dropped (s.step op) r b l
+
+def Op.thread : Op → Option Nat
+  | .enableBC t | .disableBC t | .enable t | .disable t => some t
+  | .ev e => some e.t
+  | _ => none
+
+def delivStep (s : St) (op : Op) (b : Blk) (l : Int) : Nat :=
+  match op with
+  | .ev e => if s.tracing e.t then ind s.core.abs.regs e b l else 0
+  | _ => 0
+
+def dropStep (s : St) (op : Op) (b : Blk) (l : Int) : Nat :=
+  match op with
+  | .disable t => pendOf s t b l
+  | .disableBC t => if s.count t = 1 then pendOf s t b l else 0
+  | _ => 0
+
+
 end LPVerif.Prof
